@@ -7,6 +7,7 @@ import (
 	"sort"
 	"strconv"
 	"strings"
+	"sync/atomic"
 	"time"
 
 	"github.com/pascaldekloe/mqtt"
@@ -842,7 +843,7 @@ func init() {
 		ChunkSize:    2,
 		ChildTimeout: 600,
 		Parallel:     10,
-		Rule:         "four scenarios by case number. (windows) every pair (AtLeastOnceMax, ExactlyOnceMax) from {0,1,2,3,7,16383,16384,-1,16385,100000}^2 is drawn in turn: both windows are filled against a silent broker, exactly the normalised maximum must be accepted, the next two publishes must return ErrMax at once (goroutine + structural wedge detection) without a Persistence operation, the other level stays independent; after the broker answers, capacity is back and a refilled window hits the same limit. (history) 16,384+N publishes per level (thorough: up to 70,000, four wraps) from one goroutine per level while the broker withholds and releases acknowledgements so that the in-flight window keeps changing (1..64, or the maximum itself), optionally with injected Save failures and denied publishes in between; every ErrMax must coincide with a full window. (unordered) k (quick 40-512, thorough 512) subscribe/unsubscribe requests open at once, requests beyond the slot limit, a third abandoned by quit and replaced, answers released late; then one request kept open while 8,200 others run so that the identifier counter meets it; and requests canceled during a pending reconnect, others abandoned with the answer owed, new ones after them (no identifier goes out again while the broker owes an answer under it). (restart) C02's stop-point enumeration restricted to stop points whose pending range lies across the 14-bit wrap, two generations. Oracles: identifiers on the wire inside the range of their kind; an identifier is given to another message only after the record of the previous holder was removed (store and wire trace); no two subscribe/unsubscribe requests in flight share an identifier (wire write to call return); accepted minus finally acknowledged never exceeds the normalised maximum (final acknowledgements counted when handed to the client's Read). Non-trivial: a limit probe, an identifier wrap, or a counter round; distinct by configuration and scenario parameters.",
+		Rule:         "five scenarios by case number. (windows) every pair (AtLeastOnceMax, ExactlyOnceMax) from {0,1,2,3,7,16383,16384,-1,16385,100000}^2 is drawn in turn: both windows are filled against a silent broker, exactly the normalised maximum must be accepted, the next two publishes must return ErrMax at once (goroutine + structural wedge detection) without a Persistence operation, the other level stays independent; after the broker answers, capacity is back and a refilled window hits the same limit. (concurrent) with one slot of a window of 1-3 free, 2-6 goroutines publish at once while the first of them is held inside Persistence.Save: exactly one is accepted, the others return ErrMax, none blocks. (history) 16,384+N publishes per level (thorough: up to 70,000, four wraps) from one goroutine per level while the broker withholds and releases acknowledgements so that the in-flight window keeps changing (1..64, or the maximum itself), optionally with injected Save failures and denied publishes in between; every ErrMax must coincide with a full window. (unordered) k (quick 40-512, thorough 512) subscribe/unsubscribe requests open at once, requests beyond the slot limit, a third abandoned by quit and replaced, answers released late; then one request kept open while 8,200 others run so that the identifier counter meets it; and requests canceled during a pending reconnect, others abandoned with the answer owed, new ones after them (no identifier goes out again while the broker owes an answer under it). (restart) C02's stop-point enumeration restricted to stop points whose pending range lies across the 14-bit wrap, two generations. Oracles: identifiers on the wire inside the range of their kind; an identifier is given to another message only after the record of the previous holder was removed (store and wire trace); no two subscribe/unsubscribe requests in flight share an identifier (wire write to call return); accepted minus finally acknowledged never exceeds the normalised maximum (final acknowledgements counted when handed to the client's Read). Non-trivial: a limit probe, an identifier wrap, or a counter round; distinct by configuration and scenario parameters.",
 		Assumptions: []string{
 			"in-flight is counted from API returns and bytes handed to Read, which never exceeds the client's own count",
 			"the broker answers in order per acknowledgement type; the long-open subscribe is answered by hand",
@@ -852,6 +853,10 @@ func init() {
 			switch c.Case % 4 {
 			case 0:
 				i := c.Case / 4
+				if i%4 == 3 {
+					c17Concurrent(c, 1+c.Rng.Intn(2), 1+c.Rng.Intn(3), 2+c.Rng.Intn(5))
+					return
+				}
 				m1 := c17Maxes[i%len(c17Maxes)]
 				m2 := c17Maxes[(i/len(c17Maxes)+i)%len(c17Maxes)]
 				if !thorough && effMax(m1) > 100 && effMax(m2) > 100 && i%3 != 0 {
@@ -889,4 +894,109 @@ func init() {
 			}
 		},
 	})
+}
+
+// c17Concurrent has several goroutines publish on one level at once while a
+// single slot is free and the first of them sits inside Persistence.Save:
+// whichever order they take, one is accepted and the others get ErrMax.
+func c17Concurrent(c *run.Ctx, level, max, k int) {
+	ep := newEpisode(c)
+	w := ep.W
+	defer w.Shutdown()
+	w.DataCap = 64
+	ep.F.Off = true
+	ep.Cfg.AtLeastOnceMax, ep.Cfg.ExactlyOnceMax = 8, 8
+	if level == 1 {
+		ep.Cfg.AtLeastOnceMax = max
+	} else {
+		ep.Cfg.ExactlyOnceMax = max
+	}
+	cfg := fmt.Sprintf("AtLeastOnceMax=%d ExactlyOnceMax=%d", ep.Cfg.AtLeastOnceMax, ep.Cfg.ExactlyOnceMax)
+	if err := ep.Init(); err != nil {
+		c.Violate("config-refused", "InitSession refused "+cfg+": "+err.Error(), nil)
+		return
+	}
+	var armed atomic.Bool
+	release := make(chan struct{})
+	entered := make(chan struct{}, 64)
+	w.Store.PreCopy = func() {
+		if armed.CompareAndSwap(true, false) {
+			entered <- struct{}{}
+			<-release
+		}
+	}
+	w.Mu.Lock()
+	w.Broker.AckPolicy = func(b *sim.Broker, cn *sim.Conn, p *wire.Packet, reply []byte) string { return "hold" }
+	w.Mu.Unlock()
+	d := ep.D
+	d.StartReader()
+	w.WaitIdle(sim.StepTimeout)
+	for i := 0; i < max-1; i++ {
+		if p := d.Publish(level, false, 2); p.Err != nil {
+			c.Violate("refused-below-maximum", fmt.Sprintf("level %d: publish %d refused with %q while nothing was acknowledged (%s)", level, i+1, p.Err, cfg), nil)
+			d.CloseAndWait()
+			return
+		}
+	}
+	armed.Store(true)
+	done := make(chan *sim.Pub, k)
+	for i := 0; i < k; i++ {
+		go func() { done <- d.Publish(level, false, 2) }()
+	}
+	select {
+	case <-entered:
+	case <-time.After(sim.StepTimeout):
+		c.Inconclusive("no publisher reached Persistence.Save")
+		c.Spoiled()
+		close(release)
+		return
+	}
+	// the others are at the sequence lock, or on their way; a little while
+	// makes the first case the rule, and either is fine
+	w.WaitUntil(30*time.Millisecond, func() bool { return false })
+	close(release)
+	accepted, refused := 0, 0
+	for i := 0; i < k; i++ {
+		var p *sim.Pub
+		select {
+		case p = <-done:
+		case <-time.After(sim.StepTimeout):
+			wedged, report := w.Diagnose(1500 * time.Millisecond)
+			if wedged {
+				c.Violate("publish-at-the-limit-never-returns", fmt.Sprintf("level %d: %d goroutines published at once with one slot free (%s); %d returned, the rest never does", level, k, cfg, i), map[string]any{"report": report, "trace_tail": w.TraceTail(60)})
+			} else {
+				c.Inconclusive("concurrent publishers slow: " + firstLine(report))
+			}
+			c.Spoiled()
+			return
+		}
+		switch {
+		case p.Err == nil:
+			accepted++
+		case errors.Is(p.Err, mqtt.ErrMax):
+			refused++
+		default:
+			c.Violate("refused-with-other-error", fmt.Sprintf("level %d: concurrent publish at the limit returned %q (%s)", level, p.Err, cfg), nil)
+		}
+	}
+	if accepted != 1 || refused != k-1 {
+		c.Violate("accepted-beyond-maximum", fmt.Sprintf("level %d: %d goroutines published at once with one slot free (%s): %d accepted, %d refused with ErrMax", level, k, cfg, accepted, refused), map[string]any{"trace_tail": w.TraceTail(60)})
+	}
+	c.Count("concurrent_publishers_at_the_limit", k)
+	w.Mu.Lock()
+	w.Broker.AckPolicy = nil
+	w.Mu.Unlock()
+	w.Broker.ReleaseHeld()
+	final := w.WaitUntil(2*sim.StepTimeout, d.AllClosed)
+	w.WaitIdle(sim.StepTimeout)
+	all := d.PubsSnapshot()
+	a := analyzePubs(ep, all, final)
+	reportPubs(c, ep, a, all, "C17")
+	eff := [3]int{0, effMax(ep.Cfg.AtLeastOnceMax), effMax(ep.Cfg.ExactlyOnceMax)}
+	inFlightBound(c, ep, all, eff)
+	if !d.CloseAndWait() {
+		c.Spoiled()
+	}
+	c.Trigger(fmt.Sprintf("concurrent|level=%d|max=%d|k=%d", level, max, k))
+	c.Sample(map[string]any{"scenario": "concurrent publishers at the limit", "config": cfg, "publishers": k, "accepted": accepted, "refused": refused})
 }
